@@ -9,7 +9,7 @@ import graphiso as G
 
 PROP = "C15"
 RULE = ("seeded random accepted files x corpus trees x {strict, lazy} x {no debug attributes, debug attributes with fresh names}, incl. "
-        "programs creating the same edge from several statements; paired runs: success must agree and removing the three attributes "
+        "programs creating the same edge from several statements, and the same files in pseudo-random layouts (blanks, line breaks, comments, multi-line string literals); paired runs: success must agree and removing the three attributes "
         "must give the graph of the plain run; the debug run is validated against the TLA+ machine (variable text, 1-based line and "
         "column of the variable, matched syntax node); an edge's location must be that of an edge statement of the file; "
         "non-trivial = at least one node or edge statement executed")
@@ -38,7 +38,15 @@ def multi_edge_files():
                  A.stanza(q, [A.node(A.var("n")), A.edge(A.var("n"), A.svar(A.cap("id"), "r")), A.edge(A.var("n"), A.svar(A.cap("id"), "r"))]),
                  A.stanza(q, [A.edge(A.svar(A.cap("id"), "r"), A.svar(A.cap("id"), "r")), A.attrn(A.svar(A.cap("id"), "r"), A.attr("k", A.integer(1)))])],
                 inherit=["r"])
-    return [f1, f2]
+    # string literals spanning several lines before the statements whose location is recorded
+    ml = dict(A.string("l1\nl2\n\n  l4"), raw=True)
+    ml2 = dict(A.string("x\ny"), raw=True)
+    f3 = A.file([A.stanza("(module) @m ", [A.let(A.var("s"), ml), A.node(A.var("a")), A.attrn(A.var("a"), A.attr("t", ml2)), A.node(A.svar(A.cap("m"), "r")),
+                                           A.edge(A.var("a"), A.svar(A.cap("m"), "r"))]),
+                 A.stanza(q, [A.node(A.var("n")), A.attrn(A.var("n"), A.attr("t", ml)), A.node(A.var("k")), A.edge(A.var("n"), A.var("k")),
+                              A.edge(A.var("k"), A.svar(A.cap("id"), "r"))])],
+                inherit=["r"])
+    return [f1, f2, f3]
 
 
 def make_cases(tier):
@@ -69,7 +77,17 @@ def strip_edge_loc(g):
 def run(tier):
     run = X.ExecRun(PROP, tier)
     V = run.V
-    run.add_cases("c15", make_cases(tier))
+    cases = make_cases(tier)
+    run.add_cases("c15", cases)
+    # the same files written with pseudo-random layouts (blanks, line breaks and comments wherever the syntax allows them, string
+    # literals spanning lines): locations are those of the variable's first character in that text
+    lay = []
+    for c in cases[: (240 if tier == "quick" else 3000)]:
+        if c["id"].endswith("~dbg"):
+            cc = json.loads(json.dumps(c))
+            cc["id"] = c["id"][:-4] + "~lay~dbg"
+            lay.append(cc)
+    run.add_cases("c15lay", lay, layout_seed=C.seed() * 31 + 15)
     by_id = {}
     stats = {"pairs": 0, "both_ok": 0, "both_err": 0, "debug_graphs_checked": 0, "edges_with_location": 0, "nodes_with_debug": 0}
     nontrivial = 0
